@@ -112,7 +112,8 @@ int aws_cli_getopt_long(
         aws_cli_on_arg = false;
         aws_cli_positional_arg = NULL;
 
-        char *opt_value = memchr(optstring, option->val, strlen(optstring) + 1);
+        /* look among the option characters only: the terminator is not one (an entry with val == 0 would match it) */
+        char *opt_value = memchr(optstring, option->val, strlen(optstring));
         if (!opt_value) {
             return '?';
         }
